@@ -83,6 +83,24 @@ def run_cell(cell, rec, seed):
                 if got is not None:
                     rec.close("internal chain rule", np.asarray(got)[:, 0], ref0, ns=ns[:, 0],
                               detail=info, mech="chain-rule-internal")
+        if cell["ck"] == "nn" and Rc == 1 and Rx == 1:
+            # one NN-controlled object driven by a stream of short-lived control inputs (a
+            # filtering loop): every step must use the network output of *its* control
+            for step in range(24):
+                u_np = rng.standard_normal((1, tc.Du))
+                M_t, b_t = tc.net(u_np)
+                jt = lc.call(rec, "affine_joint_transformation",
+                             lambda: c.affine_joint_transformation(p, u=J(u_np)), info)
+                if jt is None:
+                    break
+                mu_ref = np.concatenate([tp.mu, np.einsum("rab,rb->ra", M_t, tp.mu) + b_t], axis=1)
+                C_ref = np.einsum("rab,rbc->rac", M_t, tp.Sigma)
+                rec.close("control stream: joint mu", jt.mu, mu_ref,
+                          ns=np.max(np.abs(mu_ref)) + 1e-12, detail=dict(info, step=step),
+                          mech="control-stream-joint-mu")
+                rec.close("control stream: cross-covariance", np.asarray(jt.Sigma)[:, Dx:, :Dx],
+                          C_ref, ns=np.max(np.abs(tj.Sigma_xy)), detail=dict(info, step=step),
+                          mech="control-stream-joint-Sigma")
         if rep == 0 and Rc * Rx > 1:
             rec.sample({"case": info, "M": tc.M, "b": tc.b, "Sigma_y": tc.Sigma, "mu_x": tp.mu,
                         "Sigma_x": tp.Sigma, "z": z, "ln_joint": ly + lx})
